@@ -106,6 +106,10 @@ def position(c):
         return "(PSetIndex 1)"
     if p == "rep_assign":
         return "(PAssign [%s])" % sval(aux[0])
+    if p == "rep_assign_view":      # m.r_K = o.r_K2: the elements of the view, the last one being val
+        return "(PAssign %s)" % clist([sval(x) for x in aux])
+    if p == "map_assign_view":      # m.mv_K = o.mv_K2 with the single entry {aux[0]: val}
+        return "(PMapAssign %s)" % sval(aux[0])
     if p == "map_value":
         return "(PMapValue %s)" % sval(aux[0])
     if p == "map_assign":
@@ -329,9 +333,14 @@ def run(ctx):
         # map-key store and a seeded sample of the other positions
         import random
         rnd = random.Random(ctx.seed)
-        keep = [c for c in cases if c["out"] == "panic" or c["pos"] == "singular"]
-        rest = [c for c in cases if not (c["out"] == "panic" or c["pos"] == "singular")]
-        cases_coq = keep + rnd.sample(rest, min(len(rest), 300))
+        def must(c):
+            return (c["out"] == "panic" or c["pos"] == "singular"
+                    or (c["pos"].endswith("_view") and (c["fk"] == "enum" or c.get("src", "").startswith("enum") or c["fk"] == c.get("src"))))
+        keep = [c for c in cases if must(c)]
+        rest = [c for c in cases if not must(c)]
+        views = [c for c in rest if c["pos"].endswith("_view")]
+        other = [c for c in rest if not c["pos"].endswith("_view")]
+        cases_coq = keep + rnd.sample(views, min(len(views), 150)) + rnd.sample(other, min(len(other), 250))
     else:
         cases_coq = cases
     for c in cases:
@@ -340,10 +349,11 @@ def run(ctx):
     for c in cases_coq:
         is_map = c["pos"].startswith("map_")
         v = c["val"]
-        if v.get("t") == "int":
-            ints.add(int(v["z"]))
-        if v.get("t") == "float":
-            flts.add(int(v["bits"]))
+        for x in [v] + list(c.get("aux") or []):
+            if x.get("t") == "int":
+                ints.add(int(x["z"]))
+            if x.get("t") == "float":
+                flts.add(int(x["bits"]))
         rb, rt = content(c.get("rt_bin"), is_map), content(c.get("rt_text"), is_map)
         after = content(c.get("after"), is_map) or content(c.get("before"), is_map)
         out = {"ok": "SOk", "err": "SErr", "panic": "SPanic"}[c["out"]]
@@ -378,10 +388,10 @@ def finish_scalar(ctx, refs, scalar_job):
     for i in bad_spec:
         c = refs[i]
         if c["out"] == "panic":
-            key = "panic:%s:%s:%s" % (c["fk"], c["pos"], c["val"]["t"])
+            key = "panic:%s:%s:%s%s" % (c["fk"], c["pos"], c["val"]["t"], (":from-" + c["src"]) if c.get("src") else "")
             what = "host panic storing %s into a %s field (%s): %s" % (c["val"], c["fk"], c["pos"], c.get("msg"))
         else:
-            key = "store:%s:%s:%s:%s" % (c["fk"], c["pos"], c["val"]["t"], c["out"])
+            key = "store:%s:%s:%s:%s%s" % (c["fk"], c["pos"], c["val"]["t"], c["out"], (":from-" + c["src"]) if c.get("src") else "")
             what = "storing %s into a %s field (%s) gives %s with content %s -> %s (round trips %s / %s): not the specified outcome" % (
                 c["val"], c["fk"], c["pos"], c["out"], c["before"], c.get("after"), c.get("rt_bin"), c.get("rt_text"))
         ctx.finding(key, what, c)
@@ -400,6 +410,16 @@ def run_histories(ctx, hx, dist, cases, terms, refs, scalar_job):
         dist["probe " + name + " " + p["out"]] = 1
         if p["out"] == "panic":
             ctx.finding("panic:probe:" + name, "host panic in scenario %s: %s" % (name, p["detail"][:200]), p)
+        elif name.startswith("view-"):
+            # a wrapper / view obtained through any access path, before or after the freeze
+            if p["mutated"] or p["out"] != "err":
+                parts = name.split(":")
+                ctx.finding("freeze:direct:view:%s:%s" % (parts[0], parts[1]),
+                            "a frozen message was changed (or the mutation accepted) through a wrapper obtained by %s (%s): %s -> %s, changed=%s" % (
+                                parts[1], parts[0], parts[2] if len(parts) > 2 else "", p["out"], p["mutated"]), p)
+        elif name.startswith("type-mismatch:"):
+            if p["out"] != "err":
+                ctx.finding("store:type-mismatch:" + name.split(":", 1)[1], "a value of another message / enum type was not rejected with an error (%s): %s" % (name, p["out"]), p)
         elif name.startswith("frozen-direct") or name == "frozen-set_field":
             if p["mutated"] or p["out"] != "err":
                 ctx.finding("freeze:direct:probe:" + name, "mutation of a frozen message through its own wrapper was not rejected (%s)" % name, p)
@@ -487,7 +507,7 @@ def run_histories(ctx, hx, dist, cases, terms, refs, scalar_job):
     cov = {
         "evaluations": len(cases) + sum(len(h["ops"]) for h in hists) + len(probes),
         "distinct_nontrivial": len(set(terms)) + len(cleaned),
-        "rule": "scalar grid: 16 kinds x 8 positions x boundary values (min-1, min, max, max+1, powers of two, wrong types, None), each with before/after read-back and binary + text marshal round trip; %d random histories of <= 14 operations over 4 variables of a recursive message type (20 operation kinds), everything read back after every step, Go-side freeze oracle on all, %d histories evaluated step by step inside Coq against Store.v (correspondence) and Spec.v (oracle); %d scripted probes" % (len(hists), len(cleaned), len(probes)),
+        "rule": "scalar grid: 16 kinds x 8 positions x boundary values, plus whole-field assignment from a proto.repeated / proto.map VIEW of every other kind's field (17 source kinds incl. a second enum type) (min-1, min, max, max+1, powers of two, wrong types, None), each with before/after read-back and binary + text marshal round trip; %d random histories of <= 14 operations over 4 variables of a recursive message type (20 operation kinds), everything read back after every step, Go-side freeze oracle on all, %d histories evaluated step by step inside Coq against Store.v (correspondence) and Spec.v (oracle); %d scripted probes" % (len(hists), len(cleaned), len(probes)),
         "samples": refs[:2] + [{"ops": h["ops"], "res": h["res"]} for h in hists[:2]],
         "distribution": dist,
         "scalar_model_mismatches": nbad_model, "scalar_spec_mismatches": nbad_spec,
